@@ -7,6 +7,7 @@ use std::sync::atomic::{AtomicU64, Ordering};
 
 static BYTES: AtomicU64 = AtomicU64::new(0);
 static CALLS: AtomicU64 = AtomicU64::new(0);
+static MAX_SINGLE: AtomicU64 = AtomicU64::new(0);
 
 pub struct Counting;
 
@@ -14,11 +15,13 @@ unsafe impl GlobalAlloc for Counting {
     unsafe fn alloc(&self, l: Layout) -> *mut u8 {
         BYTES.fetch_add(l.size() as u64, Ordering::Relaxed);
         CALLS.fetch_add(1, Ordering::Relaxed);
+        MAX_SINGLE.fetch_max(l.size() as u64, Ordering::Relaxed);
         unsafe { System.alloc(l) }
     }
     unsafe fn alloc_zeroed(&self, l: Layout) -> *mut u8 {
         BYTES.fetch_add(l.size() as u64, Ordering::Relaxed);
         CALLS.fetch_add(1, Ordering::Relaxed);
+        MAX_SINGLE.fetch_max(l.size() as u64, Ordering::Relaxed);
         unsafe { System.alloc_zeroed(l) }
     }
     unsafe fn dealloc(&self, p: *mut u8, l: Layout) {
@@ -30,6 +33,7 @@ unsafe impl GlobalAlloc for Counting {
             BYTES.fetch_add((new_size - l.size()) as u64, Ordering::Relaxed);
         }
         CALLS.fetch_add(1, Ordering::Relaxed);
+        MAX_SINGLE.fetch_max(new_size as u64, Ordering::Relaxed);
         unsafe { System.realloc(p, l, new_size) }
     }
 }
@@ -41,4 +45,8 @@ pub fn allocated() -> u64 {
 #[allow(dead_code)]
 pub fn calls() -> u64 {
     CALLS.load(Ordering::Relaxed)
+}
+/// largest single request (alloc, alloc_zeroed or the new size of a realloc) since the previous call; resets the mark
+pub fn take_max_single() -> u64 {
+    MAX_SINGLE.swap(0, Ordering::Relaxed)
 }
